@@ -218,7 +218,15 @@ func DefaultFor(s Shape) *Lit {
 // FieldAtoms: one struct with one field per (shape, requiredness, default?).
 func FieldAtoms(depth int) []Atom {
 	var out []Atom
-	for _, s := range Shapes(depth) {
+	shapes := Shapes(depth)
+	if depth == 1 {
+		// containers inside containers, a fixed handful at depth 1: every kind of container as the
+		// element of a list and as the value of a map (the full product is the thorough tier's)
+		for _, in := range []*Type{List(T("i32")), Set(T("i32")), Set(T("string")), Map(T("string"), T("i32"))} {
+			shapes = append(shapes, Shape{Type: List(in), Base: "list"}, Shape{Type: Map(T("string"), in), Base: "map"})
+		}
+	}
+	for _, s := range shapes {
 		for _, req := range []string{"required", "default", "optional"} {
 			defs := []*Lit{nil}
 			if d := DefaultFor(s); d != nil {
